@@ -12,7 +12,7 @@
 import signal
 from types import SimpleNamespace
 
-from engine.harness_api import Ob, setup, pick
+from engine.harness_api import Ob, setup, pick, ns
 setup(shim=False)
 
 import gunicorn.arbiter as A  # noqa: E402
@@ -117,13 +117,16 @@ def files(ui: int, gi: int, root: bool) -> bool:
     def chown(path, u, g):
         log.append(("chown", path, u, g))
         owners[path] = (u if u != -1 else owners[path][0], g if g != -1 else owners[path][1])
-    saved = (WT.os, WT.tempfile, WT.util, GS.os, GS.util)
-    WT.os = SimpleNamespace(umask=set_umask, geteuid=lambda: me[0], getegid=lambda: me[1], fdopen=lambda fd, m, b: SimpleNamespace(fd=fd),
+    saved = (WT.os, WT.tempfile, WT.util, GS.os, GS.util, WT.time)
+    WT.time = ns("WT.time", monotonic=lambda: 5.0)
+    WT.os = ns("WT.os", umask=set_umask, geteuid=lambda: me[0], getegid=lambda: me[1],
+                            fdopen=lambda fd, m, b: SimpleNamespace(fd=fd, fileno=lambda: fd, close=lambda: None),
+                            utime=lambda fd, times: log.append(("utime", fd)), fstat=lambda fd: SimpleNamespace(st_mtime=5.0),
                             close=lambda fd: None, path=SimpleNamespace(isdir=lambda d: True))
-    WT.tempfile = SimpleNamespace(mkstemp=mkstemp)
-    WT.util = SimpleNamespace(chown=chown, unlink=lambda n: log.append(("unlink", n)))
-    GS.os = SimpleNamespace(umask=set_umask)
-    GS.util = SimpleNamespace(chown=chown)
+    WT.tempfile = ns("WT.tempfile", mkstemp=mkstemp)
+    WT.util = ns("WT.util", chown=chown, unlink=lambda n: log.append(("unlink", n)))
+    GS.os = ns("GS.os", umask=set_umask)
+    GS.util = ns("GS.util", chown=chown)
     try:
         cfg = SimpleNamespace(umask=0o7, worker_tmp_dir=None, uid=uid, gid=gid)
         WT.WorkerTmp(cfg)
@@ -143,7 +146,7 @@ def files(ui: int, gi: int, root: bool) -> bool:
         if umask[0] != 0o22 or owners["/run/g.sock"] != (uid, gid):
             return False
     finally:
-        WT.os, WT.tempfile, WT.util, GS.os, GS.util = saved
+        WT.os, WT.tempfile, WT.util, GS.os, GS.util, WT.time = saved
     return True
 
 
@@ -200,13 +203,13 @@ def spawn_path(entry: int, ig: bool, ui: int, gi: int) -> bool:
     arb.cfg.worker_class = TWorker
     undo = KS.install(A, K)
     A.os.fork = lambda: 0                   # we are the child
-    A.sock = SimpleNamespace(create_sockets=lambda *a, **k: [], close_sockets=lambda l, u=True: None)
+    A.sock = ns("A.sock", create_sockets=lambda *a, **k: [], close_sockets=lambda l, u=True: None)
     saved = (WB.WorkerTmp, WB.util, WB.os, WB.signal)
     WB.WorkerTmp = lambda cfg: SimpleNamespace(close=lambda: None, fileno=lambda: 9, notify=lambda: None)
-    WB.util = SimpleNamespace(set_owner_process=lambda u, g, initgroups=False: trace.append(("set_owner", u, g, initgroups)),
+    WB.util = ns("WB.util", set_owner_process=lambda u, g, initgroups=False: trace.append(("set_owner", u, g, initgroups)),
                               seed=lambda: None, set_non_blocking=lambda fd: None, close_on_exec=lambda fd: None)
-    WB.os = SimpleNamespace(pipe=lambda: (90, 91), environ={}, write=lambda fd, d: None)
-    WB.signal = SimpleNamespace(**{k: getattr(signal, k) for k in dir(signal) if k.startswith("SIG")},
+    WB.os = ns("WB.os", pipe=lambda: (90, 91), environ={}, write=lambda fd, d: None)
+    WB.signal = ns("WB.signal", **{k: getattr(signal, k) for k in dir(signal) if k.startswith("SIG")},
                                 signal=lambda s, h: None, siginterrupt=lambda s, f: None, set_wakeup_fd=lambda fd: None)
     arb.log = SimpleNamespace(**{k: hook for k in ("debug", "info", "warning", "error", "exception", "critical",
                                                    "close_on_exec", "reopen_files")})
